@@ -270,7 +270,9 @@ def fault_case(draw):
     # position (request index within an attempt) at which each fault is injected: 0 = first request; listings have one request per page
     # (only a listing is ONE retried unit made of several requests; the other calls retry each request on its own)
     pos = [draw(st.integers(0, 3)) if op == "list_files" else 0 for _ in kinds]
-    return {"kind": "fault", "op": op, "plan": plan, "faults": kinds, "pos": pos}
+    # for calls that read the response body inside the retried unit the fault may also hit WHILE the body is streamed
+    where = draw(st.sampled_from(["request", "request", "body"])) if op in ("read_file", "read_file_with_etag", "range_read") and plan != "permanent" else "request"
+    return {"kind": "fault", "op": op, "plan": plan, "faults": kinds, "pos": pos, "where": where}
 
 
 def _mk_exc(kind):
@@ -336,7 +338,7 @@ def _fresh(fake):
 def check_fault(case):
     import datashard.storage_backend as SB
 
-    out = {"violations": [], "labels": [f"c:{case['plan']}", f"c:op:{case['op']}"], "nontrivial": True}
+    out = {"violations": [], "labels": [f"c:{case['plan']}", f"c:op:{case['op']}"] + (["c:body-read-fault"] if case.get("where") == "body" else []), "nontrivial": True}
     fake = FakeS3()
     with s3_env(fake) as vt:
         s3 = SB.S3StorageBackend(bucket="bkt", prefix="p")
@@ -350,7 +352,19 @@ def check_fault(case):
 
         positions = list(case.get("pos") or [0] * len(pending))
 
+        where = case.get("where", "request")
+
         def hook(phase, op, key, req):
+            if where == "body":
+                if phase == "before":
+                    state["reqs"] += 1
+                if phase == "body" and pending:
+                    k = pending.pop(0)
+                    # mid-body failures are connection-level errors (an S3 error CODE cannot arrive once the body is streaming)
+                    e = _mk_exc(k if k in ("botocore", "oserror") else "oserror")
+                    raised_objs.append(e)
+                    raise e
+                return
             if phase != "before":
                 return
             state["reqs"] += 1
